@@ -116,6 +116,30 @@ def crafted_start_effects():
                 pr.add_action(a)
                 pr.add_goal(Equals(level, goal_level))
                 out.append(pr)
+    # an end assignment `x := v` next to a START condition that is literally `x == v`, where a start effect changes a fluent `v` reads: at the end the
+    # assignment is NOT redundant (v has moved); a second action needs the old / the new value of x for its whole duration
+    from unified_planning.shortcuts import Minus
+    for step, vexp in (("inc", "y"), ("dec", "y"), ("inc", "y+1")):
+        for need in (0, 1, -1, 2):
+            pr = Problem(f"end_assignment_equal_to_a_start_condition_{step}_{vexp}_{need}")
+            x, y, done = Fluent("x", IntType(-10, 10)), Fluent("y", IntType(-10, 10)), Fluent("done", BoolType())
+            pr.add_fluent(x, default_initial_value=0 if vexp == "y" else 1)
+            pr.add_fluent(y, default_initial_value=0)
+            pr.add_fluent(done, default_initial_value=False)
+            val = y() if vexp == "y" else Plus(y, 1)
+            cp = DurativeAction("copy")
+            cp.set_fixed_duration(1)
+            cp.add_condition(StartTiming(), Equals(x, val))
+            (cp.add_increase_effect if step == "inc" else cp.add_decrease_effect)(StartTiming(), y, 1)
+            cp.add_effect(EndTiming(), x, val)
+            probe = DurativeAction("probe")
+            probe.set_fixed_duration(1)
+            probe.add_condition(ClosedTimeInterval(StartTiming(), EndTiming()), Equals(x, need))
+            probe.add_effect(EndTiming(), done, True)
+            pr.add_action(cp)
+            pr.add_action(probe)
+            pr.add_goal(done)
+            out.append(pr)
     return out
 
 
